@@ -474,7 +474,11 @@ class EvolutionarySolver(RandomSearchSolver):
         scores_hof = list(zip(*self.hof))[0]
 
         depth_pop = [circuit.depth for (_, circuit) in population]
-        depth_hof = [circuit.depth for (_, circuit) in self.hof]
+        # the hall of fame holds (inf, None) placeholders until n_hof circuits have been seen
+        depth_hof = [
+            circuit.depth if circuit is not None else np.nan
+            for (_, circuit) in self.hof
+        ]
 
         self.logs["population"].append(
             dict(
